@@ -1038,6 +1038,33 @@ impl CsRunner {
             }
         }
         let got: Vec<(u32, u32)> = got.into_iter().map(|(i, s, _)| (i, s)).collect();
+        // the public readers: `get_token_endpoints` (and `get_endpoints` = `compute_token` + it) must hand out the very same
+        // replicas - same hosts, shards, order and `Node` objects - as the locator's tablet branch
+        {
+            let cs = self.cs.as_ref().unwrap();
+            let (k, name) = cs_table(t);
+            let api = cs.get_token_endpoints(k, &name, Token::new(tok));
+            let spec = TableSpec::owned(k.to_owned(), name.clone());
+            let st = Strategy::SimpleStrategy { replication_factor: 1 };
+            let direct: Vec<(&Arc<Node>, u32)> = cs.replica_locator().replicas_for_token(Token::new(tok), &st, None, &spec).into_iter().collect();
+            let same = api.len() == direct.len() && api.iter().zip(direct.iter()).all(|((a, sa), (d, sd))| Arc::ptr_eq(a, d) && sa == sd);
+            if !same {
+                ctx.fail(format!(
+                    "table {}.{} token {}: ClusterState::get_token_endpoints answers {} but the locator's tablet branch answers {}",
+                    k,
+                    name,
+                    tok,
+                    show_reps(&api.iter().map(|(n, s)| (n.host_id.as_u128() as u32, *s)).collect::<Vec<_>>()),
+                    show_reps(&got)
+                ));
+            }
+            if let (Ok(token), Ok(by_key)) = (cs.compute_token(k, &name, &()), cs.get_endpoints(k, &name, &())) {
+                let at = cs.get_token_endpoints(k, &name, token);
+                if by_key.len() != at.len() || by_key.iter().zip(at.iter()).any(|((a, sa), (b, sb))| !Arc::ptr_eq(a, b) || sa != sb) {
+                    ctx.fail(format!("table {}.{}: get_endpoints differs from get_token_endpoints at the key's token {}", k, name, token.value()));
+                }
+            }
+        }
         let want = self.tables[t].lookup(token_new(tok)).map(|e| e.resolved.clone()).unwrap_or_default();
         if got != want {
             ctx.fail(format!(
